@@ -14,7 +14,7 @@
 EXTENDS Integers, Sequences, FiniteSets, TLC, Json, IOUtils
 
 Rec == ndJsonDeserialize(IOEnv.TRACE)
-Kinds == {"req", "answer", "die", "timeout", "done", "taccept", "tdata", "end"}
+Kinds == {"req", "answer", "die", "timeout", "done", "taccept", "tdata", "openrace", "end"}
 
 InitSt(e) == [sidOf |-> <<>>,      \* r -> sid
               target |-> <<>>,     \* r -> target class
@@ -60,6 +60,10 @@ Apply(s, e) ==
                       IF e.verdict = "ok" \/ e.reply = "ok" THEN No(s, "'connected' was reported although the server could not connect")
                       ELSE IF e.verdict = "timeout" THEN No(s, "the open timed out instead of reporting the server's failure")
                       ELSE Ok(s2)
+      \* many opens on a multi-threaded runtime while the peer finishes other streams: every call returns
+      [] e.ev = "openrace" ->
+            IF e.hung \/ e.completed # e.opens THEN No(s, "an open racing with end-of-stream frames of other streams never returned")
+            ELSE Ok(s)
       [] e.ev = "end" ->
             LET must == {r \in DOMAIN s.outcome : s.target[r] # "scripted" \/ s.outcome[r] # "none"} IN
             IF \E r \in must : r \notin s.done THEN No(s, "a request never completed")
@@ -68,7 +72,7 @@ Apply(s, e) ==
             ELSE Ok(s)
       [] OTHER -> No(s, "unknown event")
 
-NonTrivial(e, r) == r.ok /\ e.ev = "done"
+NonTrivial(e, r) == r.ok /\ (e.ev = "done" \/ e.ev = "openrace")
 
 VARIABLES l, st, bad, devs, skip, scn, cnt, nt
 TK == INSTANCE TraceKit
